@@ -188,6 +188,10 @@ func (t *Term) write(b *strings.Builder) {
 		b.WriteString(") ")
 		t.Args[0].write(b)
 		b.WriteString(")")
+	case "constarr":
+		b.WriteString("((as const " + string(t.S) + ") ")
+		t.Args[0].write(b)
+		b.WriteString(")")
 	case "app":
 		if len(t.Args) == 0 {
 			b.WriteString(smtSym(t.Name))
@@ -477,6 +481,11 @@ func Le(a, b *Term) *Term { return cmp("<=", a, b) }
 func Gt(a, b *Term) *Term { return cmp(">", a, b) }
 func Ge(a, b *Term) *Term { return cmp(">=", a, b) }
 
+// ConstArr: the array that holds v at every index
+func ConstArr(v *Term) *Term {
+	return &Term{Op: "constarr", Args: []*Term{v}, S: arrayOf(v.S)}
+}
+
 func Select(arr, idx *Term) *Term {
 	// read over write
 	for arr.Op == "store" {
@@ -489,6 +498,9 @@ func Select(arr, idx *Term) *Term {
 			continue
 		}
 		break
+	}
+	if arr.Op == "constarr" {
+		return arr.Args[0]
 	}
 	return &Term{Op: "select", Args: []*Term{arr, idx}, S: elemOf(arr.S)}
 }
@@ -649,6 +661,13 @@ func Query(facts []*Term, goal *Term, models bool) string {
 	sort.Strings(us)
 	if len(us) > 0 {
 		fmt.Fprintf(&b, "(assert (distinct 0 %s))\n", strings.Join(us, " "))
+	}
+	// the nil slice has length and capacity 0
+	if fns["slen"] {
+		b.WriteString("(assert (= (slen 0) 0))\n")
+	}
+	if fns["scap"] {
+		b.WriteString("(assert (= (scap 0) 0))\n")
 	}
 	for _, f := range facts {
 		if f.IsTrue() {
